@@ -163,6 +163,8 @@ class DictWriter:
                 "kind": "label",
                 "name": part[1],
             }
+            if len(part) > 2:
+                json_part["offset"] = part[2]
         else:  # pragma: no cover
             raise NotImplementedError(str(part))
         return json_part
@@ -483,6 +485,8 @@ class DictReader:
             part = asc2bin(json_part["data"])
         elif kind == "label":
             part = (ir.ptr, json_part["name"])
+            if "offset" in json_part:
+                part = part + (json_part["offset"],)
         else:  # pragma: no cover
             raise NotImplementedError(kind)
         return part
